@@ -23,7 +23,8 @@ RULE = ("plan = (API kind: rule call / type_transform / Schema / DataClass / fun
         ">=1 fault actually fired inside the library; distinct by (API kind, type shape, fired fault sites, exception classes, options)")
 ASSUMPTIONS = [
     "slice: containment, body-not-entered and bounded termination under injected faults; totality over all input values is NOT claimed",
-    "faults are injected only below the top level (nested rules, elements, field values), where the library and not Python's own call protocol runs the seam",
+    "faults are injected below the top level (nested rules, elements, field values) and, for Cls.__from__(mapping), at the top-level mapping too: there the library itself, not Python's call protocol, iterates it",
+    "O2b: no preserve/exclude policy exists in this world, so an unconverted payload inside a created instance or in the arguments of an entered body means a failed conversion got through",
     "default_factory, property setters and top-level __validate__ are documented to propagate caller errors and are not fault sites",
     "KeyboardInterrupt/MemoryError/RecursionError are not injected",
     "step budget 200000 + 20000 per input node is a hang detector, not a performance bound",
@@ -38,7 +39,7 @@ TIERS = {
     "quick": {"runs": 12000, "chunk": 100, "selftest": 64, "minimise_s": 30},
     "thorough": {"budget_s": 600, "chunk": 300, "selftest": 512, "minimise_s": 90},
 }
-PROBES = ["fault_in_set", "fault_in_union", "fault_in_nested_dc", "hook_fault_fired", "input_fault_fired",
+PROBES = ["fault_in_set", "fault_in_union", "fault_in_nested_dc", "hook_fault_fired", "input_fault_fired", "typed_extras_fault", "top_level_mapping_fault", "key_str_fault",
           "transient_fired", "hostile_scalar", "body_blocked"]
 
 BUILTINS = {
@@ -184,6 +185,17 @@ def generate(rng, tier):
             inp["p%d" % i] = gen_value(rng, t, pool, pos, 1, hostile_p)
         plan["fields"] = fields
         plan["input"] = inp
+        # typed extras: Options(addition=Leaf) for data classes, **kwargs: Leaf for functions
+        plan["extras"] = {}
+        if rng.random() < 0.35:
+            plan["typed_extras"] = True
+            for j in range(rng.choice([1, 1, 2])):
+                plan["extras"]["x%d" % j] = gen_value(rng, ["leaf"], pool, pos, 1, 0)
+        # the mapping handed to __from__ is iterated by the library itself: a legitimate fault site at the top level
+        if api in ("schema", "dataclass") and plan["eager"]:
+            plan["top_fd"] = rng.random() < 0.3
+            if rng.random() < 0.3:
+                plan["cast_keys"] = True       # Options(cast_keyword_str=True) + keys that are objects, some with a failing __str__
     fl, tr = {}, {}
     nf = rng.choice([1, 1, 2, 3])
     if pos:
@@ -200,8 +212,12 @@ def generate(rng, tier):
         for _ in range(rng.choice([1, 1, 2])):
             site = rng.choice(hook_sites)
             hooks.setdefault(site, {})[str(rng.choice([1, 1, 2, 3, 5]))] = rng.choice(faults.EXC_NAMES)
+    if plan.get("cast_keys") and rng.random() < 0.7:
+        hooks.setdefault("key_str", {})[str(rng.choice([1, 1, 2, 3]))] = rng.choice(faults.EXC_NAMES)
     inputs = {}
     in_sites = []
+    if plan.get("top_fd"):
+        in_sites += ["fd.items", "fd.items.next", "fd.__iter__", "fd.keys", "fd.__getitem__", "fd.__len__"]
     if '"$fl"' in dump:
         in_sites += ["fl.__iter__", "fl.__next__", "fl.__len__", "fl.__getitem__"]
     if '"$fd"' in dump:
@@ -305,6 +321,43 @@ def build_value(v, hostile):
     return v
 
 
+class KeyObj:
+    """A mapping key that is not a str; str() of it is a hook fault site (cast_keyword_str)."""
+    __slots__ = ("name",)
+
+    def __init__(self, name):
+        self.name = name
+
+    def __str__(self):
+        faults.hook_point("key_str")
+        return self.name
+
+    def __hash__(self):
+        return hash(("KeyObj", self.name))
+
+    def __eq__(self, other):
+        return type(other) is KeyObj and other.name == self.name
+
+    def __repr__(self):
+        return f"KeyObj({self.name!r})"
+
+
+def _has_raw(x, depth=0):
+    """An unconverted payload somewhere in what the body / the instance received."""
+    if depth > 8:
+        return False
+    if isinstance(x, faults.Raw):
+        return True
+    if isinstance(x, dict):
+        return any(_has_raw(k, depth + 1) or _has_raw(v, depth + 1) for k, v in list(dict.items(x)))
+    if isinstance(x, (list, tuple, set, frozenset)):
+        return any(_has_raw(v, depth + 1) for v in x)
+    d = getattr(x, "__dict__", None)
+    if isinstance(d, dict) and hasattr(type(x), "__parser__"):
+        return any(_has_raw(v, depth + 1) for k, v in d.items() if k != "__context__")
+    return False
+
+
 def _drive(x):
     """Complete a coroutine / first step of an async generator without an event loop (bodies never await)."""
     try:
@@ -318,7 +371,14 @@ def build_call(plan, env):
     import utype
     from utype import Schema, DataClass, Options, Rule
     api = plan["api"]
-    opts = Options(collect_errors=True) if plan["collect"] else None
+    okw = {}
+    if plan["collect"]:
+        okw["collect_errors"] = True
+    if plan.get("typed_extras") and api in ("schema", "dataclass"):
+        okw["addition"] = faults.Leaf
+    if plan.get("cast_keys"):
+        okw["cast_keyword_str"] = True
+    opts = Options(**okw) if okw else None
     if api in ("rule", "transform"):
         T = Rule.parse_annotation(annotation=build_type(plan["type"], env))
         if api == "rule" and isinstance(T, type) and issubclass(T, Rule) and not plan["collect"]:
@@ -330,24 +390,35 @@ def build_call(plan, env):
         if opts:
             ns["__options__"] = opts
         cls = type("Top", (Schema if api == "schema" else DataClass,), ns)
+
+        def seen(inst):
+            # O2b: an instance was created: nothing in it may be an unconverted payload
+            if _has_raw(dict(inst) if api == "schema" else {k: x for k, x in inst.__dict__.items() if k != "__context__"}):
+                FLAGS.append("raw_leaked")
+            return inst
         if plan["eager"]:
-            return lambda v: cls.__from__(v)
-        return lambda v: cls(**v)
+            return lambda v: seen(cls.__from__(v))
+        return lambda v: seen(cls(**v))
     names = [f["name"] for f in plan["fields"]]
     g = {"FLAGS": FLAGS, "__name__": "verif_c04"}
     for f in plan["fields"]:
         g["T_" + f["name"]] = build_type(f["type"], env)
     params = ", ".join(f"{n}: T_{n}" for n in names)
-    body = {"func_sync": "def f(%s):\n    FLAGS.append('body')\n    return 1\n",
-            "func_coro": "async def f(%s):\n    FLAGS.append('body')\n    return 1\n",
-            "func_gen": "def f(%s):\n    FLAGS.append('body')\n    yield 1\n",
-            "func_agen": "async def f(%s):\n    FLAGS.append('body')\n    yield 1\n"}[api]
+    if plan.get("typed_extras"):
+        g["Leaf"] = faults.Leaf
+        params += ", **kwargs: Leaf"
+    g["_has_raw"] = _has_raw
+    mark = "    FLAGS.append('body')\n    if _has_raw(list(locals().values())):\n        FLAGS.append('raw_leaked')\n"
+    body = {"func_sync": "def f(%s):\n" + mark + "    return 1\n",
+            "func_coro": "async def f(%s):\n" + mark + "    return 1\n",
+            "func_gen": "def f(%s):\n" + mark + "    yield 1\n",
+            "func_agen": "async def f(%s):\n" + mark + "    yield 1\n"}[api]
     exec(body % params, g)
     w = utype.parse(g["f"], options=opts, eager=plan["eager"], no_cache=True)
 
     def call(v):
         if plan["positional"]:
-            r = w(*[v[n] for n in names])
+            r = w(*[v[n] for n in names], **{k: x for k, x in v.items() if k not in names})
         else:
             r = w(**v)
         if api == "func_coro":
@@ -372,6 +443,12 @@ def _attempt(plan, env, hostile, budget):
     from utype.utils.exceptions import ParseError
     call = build_call(plan, env)
     value = build_value(plan["input"], hostile)
+    for k, x in (plan.get("extras") or {}).items():
+        value[k] = build_value(x, hostile)
+    if plan.get("cast_keys"):
+        value = {(KeyObj(k) if i % 2 == 0 else k): x for i, (k, x) in enumerate(value.items())}
+    if plan.get("top_fd"):
+        value = faults.FaultyDict(value)
     del FLAGS[:]
     clock = StepClock(budget)
     try:
@@ -384,7 +461,7 @@ def _attempt(plan, env, hostile, budget):
         out = ("hang", clock.last)
     except Exception as e:  # noqa
         out = ("raw", type(e).__name__, kernel.clean_text(e, 140))
-    return out, clock.steps, ("body" in FLAGS)
+    return out, clock.steps, ("body" in FLAGS), ("raw_leaked" in FLAGS)
 
 
 def execute(plan):
@@ -396,7 +473,7 @@ def execute(plan):
     budget = 200000 + 20000 * _count_nodes(plan["input"])
 
     # O4: fault-free control with benign scalars must succeed
-    out, steps, body = _attempt(plan, env, hostile=False, budget=budget)
+    out, steps, body, leaked = _attempt(plan, env, hostile=False, budget=budget)
     if out[0] != "ok":
         if _control_may_reject(plan):
             res.ev("control", "rejects-structurally")
@@ -409,7 +486,7 @@ def execute(plan):
     faults.reset()
     faults.register_leaves() if False else None
     faults.set_plan(plan["faults"])
-    out, steps, body = _attempt(plan, env, hostile=True, budget=budget)
+    out, steps, body, leaked = _attempt(plan, env, hostile=True, budget=budget)
     st = faults.STATE
     res.stats["vsteps"] += steps
     for k, v in st.fired.items():
@@ -427,6 +504,9 @@ def execute(plan):
                     f"call exceeded {budget} virtual steps at {out[1]}")
     elif out[0] == "ParseError" and body:
         res.violate(f"C04|O2|{api}|{inner}|body_entered", "parameters failed to parse but the function body was entered")
+    if leaked:
+        res.violate(f"C04|O2|{api}|{inner}|unconverted_value_got_through",
+                    f"a value whose conversion failed reached the {'function body' if api.startswith('func') else 'created instance'} unconverted (fired sites {sites}, outcome {out[0]})")
     if out[0] == "ParseError" and api.startswith("func"):
         res.stats["probe:body_blocked"] += 1
     if st.fired.get("hook_fail"):
@@ -435,6 +515,12 @@ def execute(plan):
         res.stats["probe:input_fault_fired"] += 1
     if st.fired.get("leaf_transient"):
         res.stats["probe:transient_fired"] += 1
+    if plan.get("typed_extras") and any(str(faults.fault_id(faults.Leaf, x["$r"])) in plan["faults"]["leaf"] for x in plan.get("extras", {}).values()):
+        res.stats["probe:typed_extras_fault"] += 1
+    if plan.get("top_fd") and st.fired.get("input_fail"):
+        res.stats["probe:top_level_mapping_fault"] += 1
+    if plan.get("cast_keys") and st.hook_calls.get("key_str", 0) and "key_str" in plan["faults"]["hook"]:
+        res.stats["probe:key_str_fault"] += 1
     if '"$b":["' in kernel.jdump(plan["input"]) and any(i >= 0 for i in _hostile_idx(plan["input"])):
         res.stats["probe:hostile_scalar"] += 1
     if st.fired.get("leaf_fail") or st.fired.get("leaf_transient"):
